@@ -2,10 +2,25 @@
 current = None
 
 
+class QuotaError(TypeError):
+  """An exception class whose __new__ takes arguments that `args` does not hold (it holds the rendered message)."""
+  _ginverif_base = 'TypeError'
+
+  def __new__(cls, user, limit):
+    self = super().__new__(cls)
+    self.user, self.limit = user, limit
+    return self
+
+  def __init__(self, user, limit):
+    super().__init__('%s exceeded %d' % (user, limit))
+
+
 def fire(module_name):
   sess = current
   if sess is None:
     raise ImportError('no harness session for ' + module_name)
   for op in sess.regmods.get(module_name, []):
+    if op.get('_raise_custom'):
+      raise QuotaError('bob', 3)   # the module body fails with an exception of the importing project's own
     out = sess.op_register_class_with_methods(op) if op.get('_method_ops') else sess.op_register(op)
     del out
